@@ -50,6 +50,7 @@ def cases(tier, sd):
             Lambda=(float(rng.choice([0.0, 0.0, 0.2, -0.1]))
                     if style in ('tensor', 'components') else 0.0),
             tetrad=[None, None, 'fluid'][int(rng.integers(3))],
+            center=([float(v) for v in rng.uniform(-0.2, 0.2, 3)] if rng.random() < 0.5 else None),
             n1=(9 if style == 'solution' else int(rng.choice([6, 7, 8]))),
             order=(2 if style == 'solution' else int(rng.choice([2, 4]))),
             mode=('open' if style == 'solution' else 'periodic'),
@@ -105,6 +106,10 @@ def run_walk(spec, n, ops, scale_gb=1.0, fresh_for=None, ledger=None, audit=None
         if ledger is not None:
             ledger.register(inputs, "input:", "start")
             ledger.register(rel.data, "cache:", "start")
+            # the grid object is shared by every instance built on it
+            ledger.register({k: getattr(fd, k) for k in (
+                'xarray', 'yarray', 'zarray', 'x', 'y', 'z', 'r', 'theta', 'phi',
+                'cartesian_coords', 'spherical_coords')}, "grid:", "start")
         for i, op in enumerate(ops):
             cached = frozenset(rel.data)
             ev0 = st.counters['evict_regular'] + st.counters['evict_memory']
